@@ -82,6 +82,7 @@ type propMeta struct {
 	NeedBin          bool
 	Shards           int
 	DeathIsViolation bool
+	RacePass         bool
 }
 
 func die(code int, format string, a ...interface{}) {
@@ -371,6 +372,36 @@ func main() {
 		explores = append(explores, *exploreAgg[n])
 	}
 
+	// thorough tier of C18: free-running pass of the same consumers on the un-instrumented parser under -race
+	raceInfo := map[string]interface{}{}
+	if meta.RacePass && tier == "thorough" && replayFile == "" {
+		rov := filepath.Join(bdir, "race-overlay.json")
+		rb, _ := json.Marshal(map[string]interface{}{"Replace": map[string]string{filepath.Join(repo, "parser", "zzverif_race_test.go"): filepath.Join(verif, "harness_race", "race_test.go")}})
+		os.WriteFile(rov, rb, 0o644)
+		t0 := time.Now()
+		out, err := run(repo, goEnv("VERIF_RACE=1"), "go", "test", "-race", "-v", "-vet=off", "-count=1", "-timeout", "20m", "-run", "^TestVerifRace$", "-overlay", rov, "./parser")
+		raceInfo["wall_s"] = time.Since(t0).Seconds()
+		raceInfo["data_races_reported"] = strings.Count(out, "WARNING: DATA RACE")
+		if i := strings.Index(out, "VERIF-RACE-RUNS "); i >= 0 {
+			fmt.Sscanf(out[i:], "VERIF-RACE-RUNS %d", new(int))
+			var n int
+			fmt.Sscanf(out[i:], "VERIF-RACE-RUNS %d", &n)
+			raceInfo["free_runs"] = n
+		}
+		switch {
+		case strings.Contains(out, "WARNING: DATA RACE"):
+			v := Violation{Sig: id + "|data-race|free-running-race-detector", Detail: "go test -race on the un-instrumented parser with the documented consumer loops reports a data race:\n" + tail(out, 3000)}
+			frags[0].ViolCount[v.Sig]++
+			frags[0].Violations = append(frags[0].Violations, v)
+		case strings.Contains(out, "VERIF-RACE-HANG"):
+			v := Violation{Sig: id + "|free-running-consumer-hangs", Detail: tail(out, 2000)}
+			frags[0].ViolCount[v.Sig]++
+			frags[0].Violations = append(frags[0].Violations, v)
+		case err != nil:
+			cleanup()
+			die(2, "HARNESS-ERROR: race pass failed to run:\n%s", tail(out, 3000))
+		}
+	}
 	// classify violations
 	findings := loadFindings(filepath.Join(verif, "known_findings.json"))
 	known := map[string]Finding{}
@@ -481,6 +512,7 @@ func main() {
 		"chan_ops_unhooked":             rst.ChanOpsUnhooked,
 		"violation_signatures":          violCount,
 		"known_findings_hit":            knownHit,
+		"race_pass":                     raceInfo,
 		"unconfirmed_signatures":        inconsistent,
 		"build_s":                       buildS,
 		"explanation":                   "every execution is a run of the implementation built from the repository's current working tree (instrumented via go build -overlay); states/transitions are nodes/edges of the explored choice tree",
